@@ -9,6 +9,7 @@ import (
 	"encoding/json"
 	"errors"
 	"fmt"
+	"math"
 	"os"
 	"strconv"
 	"sync"
@@ -54,6 +55,10 @@ type scenario struct {
 	Rounds  int            `json:"rounds"`  // repeat phases A2/B this many times
 	// the OnOpen listener takes a while, and executions are submitted while it runs
 	SlowOpen bool `json:"slow_open"`
+	// BurstRelease: parked trials with identical outcomes are completed all at once instead of one by one
+	BurstRelease bool `json:"burst_release,omitempty"`
+	// T0: the virtual clock's reading when the scenario starts
+	T0 int64 `json:"t0,omitempty"`
 }
 
 type execState struct {
@@ -227,6 +232,8 @@ type runOut struct {
 	racedOpen                    bool // the breaker opened while at least 2 executions were in flight
 	racedTrials                  bool // more than capacity executions raced for trial permits
 	slowOpenHit                  bool
+	hugeDelay                    bool
+	burstCompleted               bool
 	paths                        map[string]bool
 }
 
@@ -247,6 +254,7 @@ func run(sc scenario) (out runOut) {
 		return out
 	}
 	w := newWorld(sc.CB, sc.SlowOpen)
+	w.now.Store(sc.T0)
 	mc := sc.CB
 	switch mc.Kind {
 	case 0:
@@ -316,7 +324,7 @@ func run(sc scenario) (out runOut) {
 	if !w.cb.IsOpen() {
 		w.cb.Open()
 	}
-	m.Manual(cbmodel.Open, 0)
+	m.Manual(cbmodel.Open, w.now.Load())
 
 	for round := 0; round < sc.Rounds; round++ {
 		// ---- phase A2: the breaker is open and its delay has not elapsed: nothing gets through ----
@@ -339,6 +347,12 @@ func run(sc scenario) (out runOut) {
 			return fail("admitted-while-open", "round %d: TryAcquirePermit succeeded on the open breaker before its delay elapsed", round)
 		}
 
+		if sc.CB.Delay > 1<<60 {
+			// "open until closed by hand": the clock moves on (days), the breaker stays open; no trial phase
+			w.now.Add(int64(100*time.Hour) * int64(round+1))
+			out.hugeDelay = true
+			continue
+		}
 		// ---- phase B: the delay elapses (nothing admitted earlier is still in flight); trials are submitted ----
 		w.now.Add(sc.CB.Delay)
 		now := w.now.Load()
@@ -467,6 +481,45 @@ func run(sc scenario) (out runOut) {
 		if v := int(w.maxIn.Load()); v > hcap && m.State() == cbmodel.HalfOpen {
 			return fail("half-open-over-admission", "round %d: %d trial executions were in progress at once, trial capacity is %d", round, v, hcap)
 		}
+		// ---- or complete them all at once, when their outcomes are identical (any order then gives the same history) ----
+		if sc.BurstRelease {
+			var pend []*execState
+			same := true
+			for _, st := range trials {
+				select {
+				case <-st.done:
+					continue
+				default:
+				}
+				if st.entered.Load() == 0 {
+					continue
+				}
+				if len(pend) > 0 && recordsFailure(st.spec) != recordsFailure(pend[0].spec) {
+					same = false
+				}
+				pend = append(pend, st)
+			}
+			if same && len(pend) >= 2 {
+				for _, st := range pend {
+					if st.spec.Beh == "cancel" {
+						st.cancel()
+					} else {
+						close(st.gate)
+					}
+				}
+				for i, st := range pend {
+					if !wait(st) {
+						return fail("trial-stuck", "round %d: parked trial %d (%+v) had not finished 30s after all were completed at once", round, i, st.spec)
+					}
+					out.paths[st.spec.Wrapper+"/"+st.spec.Beh] = true
+					m.Record(!recordsFailure(st.spec), now, sc.CB.Delay)
+				}
+				out.burstCompleted = true
+				if got := toModel(w.cb.State()); got != m.State() {
+					return fail("state-after-trial", "round %d: after %d parked trials with identical outcomes finished together the breaker is %v, the model %v", round, len(pend), got, m.State())
+				}
+			}
+		}
 		// ---- complete the parked trials in the generated order, the model in lock-step ----
 		for _, idx := range sc.Release {
 			if idx >= len(trials) {
@@ -558,7 +611,10 @@ func genScenario(t *rapid.T) scenario {
 		c.ST = uint(rapid.IntRange(1, int(c.SCap)).Draw(t, "st"))
 	}
 	c.Delay = 1000
-	sc := scenario{CB: c, RaceB: rapid.Bool().Draw(t, "raceB"), Rounds: rapid.IntRange(1, 3).Draw(t, "rounds"), SlowOpen: rapid.Bool().Draw(t, "slowOpen")}
+	if rapid.IntRange(0, 7).Draw(t, "hugeDelay") == 0 {
+		c.Delay = rapid.SampledFrom([]int64{math.MaxInt64, math.MaxInt64 - 1, 1 << 62}).Draw(t, "delayHuge")
+	}
+	sc := scenario{CB: c, RaceB: rapid.Bool().Draw(t, "raceB"), Rounds: rapid.IntRange(1, 3).Draw(t, "rounds"), SlowOpen: rapid.Bool().Draw(t, "slowOpen"), BurstRelease: rapid.Bool().Draw(t, "burstRelease"), T0: rapid.SampledFrom([]int64{0, 1, 1700000000000000000}).Draw(t, "t0")}
 	maxG := 16
 	if harness.Thorough() {
 		maxG = 32
@@ -618,7 +674,7 @@ func TestBreakerConcurrent(t *testing.T) {
 			harness.Violation(t, prop, test, o.sig, sc, "%s: %s", sc.CB, o.violation)
 		}
 		nt := o.racedOpen || o.racedTrials
-		classes := []string{fmt.Sprintf("raced-open=%v", o.racedOpen), fmt.Sprintf("raced-trials=%v", o.racedTrials), fmt.Sprintf("slow-open-listener-hit=%v", o.slowOpenHit), fmt.Sprintf("kind=%d", sc.CB.Kind)}
+		classes := []string{fmt.Sprintf("raced-open=%v", o.racedOpen), fmt.Sprintf("raced-trials=%v", o.racedTrials), fmt.Sprintf("slow-open-listener-hit=%v", o.slowOpenHit), fmt.Sprintf("kind=%d", sc.CB.Kind), fmt.Sprintf("huge-delay=%v", o.hugeDelay), fmt.Sprintf("burst-completed=%v", o.burstCompleted)}
 		for p := range o.paths {
 			classes = append(classes, "trial-end="+p)
 		}
